@@ -25,6 +25,9 @@ type Frame struct {
 	addrTaken map[types.Object]bool // fields / globals whose address is taken somewhere
 	reflectHits []string
 	litNodes []*fnode
+	wLight     *wset // what the "light" callback methods (reachable from leaf library code) write
+	heavyNames map[string]bool
+	heavyList  []string
 }
 
 type globalInit struct {
@@ -70,7 +73,9 @@ type fnode struct {
 	isLit    bool          // a function literal (fn = enclosing function, for naming)
 	lits     []*fnode      // function literals inside this function
 	dynamic  bool          // has interface-method or func-value call
-	external bool          // calls out of the module
+	external bool          // calls out of the module into code that may call back anything escaping
+	leafExt  bool          // calls out of the module into leaf library code (see isLeafExternal)
+	extIface map[string]bool // names of methods called through interfaces declared outside the module
 	writes   *wset
 }
 
@@ -197,7 +202,95 @@ func BuildFrame(prog *Program) *Frame {
 			}
 		}
 	}
+	f.computeLight()
 	return f
+}
+
+// computeLight determines which module methods library code can reach through its own interfaces
+// ("light" callbacks: String, Error, MarshalJSON, Write, Close, ...) and what they write. A method of that
+// kind whose own call closure contains an in-module dynamic call or a non-leaf external call is "heavy"
+// (ServeHTTP, RoundTrip, ...): leaf library code is assumed never to invoke a heavy method.
+func (f *Frame) computeLight() {
+	extNames := map[string]bool{"Error": true}
+	for path, pk := range f.prog.Pkgs {
+		if pk.Types == nil || strings.HasPrefix(path, "github.com/tucats/ego") {
+			continue
+		}
+		sc := pk.Types.Scope()
+		for _, n := range sc.Names() {
+			if tn, ok := sc.Lookup(n).(*types.TypeName); ok {
+				if it, ok := tn.Type().Underlying().(*types.Interface); ok {
+					for i := 0; i < it.NumMethods(); i++ {
+						extNames[it.Method(i).Name()] = true
+					}
+				}
+			}
+		}
+	}
+	var cands []*fnode
+	for fn, n := range f.nodes {
+		if fn.Type().(*types.Signature).Recv() != nil && extNames[fn.Name()] {
+			cands = append(cands, n)
+		}
+	}
+	sort.Slice(cands, func(i, j int) bool { return cands[i].fn.FullName() < cands[j].fn.FullName() })
+	f.heavyNames = map[string]bool{}
+	closure := func(n *fnode) (nodes []*fnode, heavy bool) {
+		seen := map[*fnode]bool{n: true}
+		stack := []*fnode{n}
+		for len(stack) > 0 {
+			c := stack[len(stack)-1]
+			stack = stack[:len(stack)-1]
+			nodes = append(nodes, c)
+			if c.dynamic || c.external {
+				heavy = true
+			}
+			for name := range c.extIface {
+				if f.heavyNames[name] {
+					heavy = true
+				}
+			}
+			for _, cal := range c.callees {
+				if cn := f.nodes[cal]; cn != nil && !seen[cn] {
+					seen[cn] = true
+					stack = append(stack, cn)
+				}
+			}
+			for _, l := range c.lits {
+				if !seen[l] {
+					seen[l] = true
+					stack = append(stack, l)
+				}
+			}
+		}
+		return
+	}
+	for changed := true; changed; {
+		changed = false
+		for _, c := range cands {
+			if f.heavyNames[c.fn.Name()] {
+				continue
+			}
+			if _, heavy := closure(c); heavy {
+				f.heavyNames[c.fn.Name()] = true
+				changed = true
+			}
+		}
+	}
+	f.wLight = newWset()
+	for _, c := range cands {
+		if f.heavyNames[c.fn.Name()] {
+			continue
+		}
+		nodes, _ := closure(c)
+		for _, n := range nodes {
+			f.wLight.add(n.writes)
+		}
+	}
+	for name := range f.heavyNames {
+		f.heavyList = append(f.heavyList, name)
+	}
+	sort.Strings(f.heavyList)
 }
 
 // scanBody records calls, writes and function values taken in a body (function literals are attributed to the enclosing function).
@@ -272,13 +365,26 @@ func (f *Frame) scanBody(pk *packages.Package, n *fnode, body ast.Node, valueTak
 					return true
 				}
 				if sig, ok := c.Type().(*types.Signature); ok && sig.Recv() != nil && isInterface(sig.Recv().Type()) {
+					if !inModule(c.Pkg()) {
+						// method of an interface declared outside the module (io.Reader, http.ResponseWriter, error, ...):
+						// implemented by library types or by module methods of that name
+						if n.extIface == nil {
+							n.extIface = map[string]bool{}
+						}
+						n.extIface[c.Name()] = true
+						return true
+					}
 					n.dynamic = true
 					return true
 				}
 				if inModule(c.Pkg()) {
 					n.callees = append(n.callees, c.Origin())
 				} else {
-					n.external = true
+					if isLeafExternal(c) {
+						n.leafExt = true
+					} else {
+						n.external = true
+					}
 					// pointers to module structs handed to external code may be filled by reflection
 					for _, a := range x.Args {
 						f.reflectWrite(info, fl, n, a)
@@ -398,13 +504,23 @@ func (f *Frame) writesOf(n *fnode) *wset {
 	f.memo[n] = w // breaks recursion (cycles see a partial set; the fixpoint below repairs it)
 	seen := map[*fnode]bool{n: true}
 	stack := []*fnode{n}
-	usesE := false
+	usesE, usesLight := false, false
 	for len(stack) > 0 {
 		c := stack[len(stack)-1]
 		stack = stack[:len(stack)-1]
 		w.add(c.writes)
 		if c.dynamic || c.external {
 			usesE = true
+		}
+		if c.leafExt {
+			usesLight = true
+		}
+		for name := range c.extIface {
+			if f.heavyNames[name] {
+				usesE = true
+			} else {
+				usesLight = true
+			}
 		}
 		for _, cal := range c.callees {
 			if cn := f.nodes[cal]; cn != nil && !seen[cn] {
@@ -421,8 +537,50 @@ func (f *Frame) writesOf(n *fnode) *wset {
 	}
 	if usesE {
 		w.add(f.wE)
+	} else if usesLight && f.wLight != nil {
+		w.add(f.wLight)
 	}
 	return w
+}
+
+// Leaf library code: standard-library and third-party packages that call back into the module only
+// through methods of interfaces they declare themselves (String, Error, MarshalJSON, Write, ...), applied to
+// values they are handed -- never through the server's request dispatch. A call into such a package may
+// therefore run only the "light" callback methods (computed below), not everything that escapes.
+// Functions of net/http that run handlers or transports are excluded.
+var leafPkgPrefixes = []string{
+	"strings", "bytes", "strconv", "errors", "time", "path", "os", "unicode", "math", "encoding/", "crypto/", "hash", "io",
+	"fmt", "sync", "regexp", "slices", "maps", "sort", "net/url", "mime", "compress/", "log", "bufio", "reflect", "runtime",
+	"net/http", "net/textproto", "html", "text/", "container/", "context", "unsafe", "iter", "cmp", "net/netip", "net",
+	"golang.org/x/crypto/", "golang.org/x/text/", "golang.org/x/term", "github.com/google/uuid", "github.com/golang-jwt/jwt",
+	"github.com/tucats/ego/internal/cli/ui", "database/sql", "github.com/mattn/go-sqlite3", "github.com/lib/pq", "modernc.org/sqlite",
+}
+
+var nonLeafFuncs = map[string]bool{
+	"net/http.ListenAndServe": true, "net/http.ListenAndServeTLS": true, "net/http.Serve": true, "net/http.ServeTLS": true,
+	"(*net/http.Server).ListenAndServe": true, "(*net/http.Server).ListenAndServeTLS": true, "(*net/http.Server).Serve": true, "(*net/http.Server).ServeTLS": true,
+	"(*net/http.ServeMux).ServeHTTP": true, "(net/http.HandlerFunc).ServeHTTP": true, "(net/http.Handler).ServeHTTP": true,
+	"(*net/http.Client).Do": true, "(*net/http.Client).Get": true, "(*net/http.Client).Post": true, "net/http.Get": true, "net/http.Post": true,
+	"sort.Slice": true, "sort.SliceStable": true, "sort.Sort": true, "sort.Stable": true, "slices.SortFunc": true, "slices.SortStableFunc": true,
+	"(*sync.Once).Do": true, "time.AfterFunc": true, "path/filepath.Walk": true, "path/filepath.WalkDir": true, "io/fs.WalkDir": true,
+	"strings.Map": true, "strings.FieldsFunc": true, "strings.IndexFunc": true, "strings.TrimFunc": true, "bytes.Map": true,
+	"(*regexp.Regexp).ReplaceAllStringFunc": true, "(*regexp.Regexp).ReplaceAllFunc": true, "slices.IndexFunc": true, "slices.ContainsFunc": true, "slices.DeleteFunc": true,
+}
+
+func isLeafExternal(fn *types.Func) bool {
+	if fn == nil || fn.Pkg() == nil {
+		return false
+	}
+	if nonLeafFuncs[fn.FullName()] {
+		return false // takes a callback or dispatches handlers: the callback's effects are the caller's
+	}
+	path := fn.Pkg().Path()
+	for _, p := range leafPkgPrefixes {
+		if path == strings.TrimSuffix(p, "/") || strings.HasPrefix(path, p) && (strings.HasSuffix(p, "/") || strings.HasPrefix(path, p+"/")) {
+			return true
+		}
+	}
+	return false
 }
 
 // HasWriters: does any non-test module function write this package-level variable / field?
@@ -487,9 +645,19 @@ func (f *Frame) WriteKind(fc *FnCtx, fn *types.Func, k any) int {
 	case fn == nil:
 		w = f.wE // dynamic: any escaping function
 	case fn.Type().(*types.Signature).Recv() != nil && isInterface(fn.Type().(*types.Signature).Recv().Type()):
-		w = f.wE // interface method: any implementation, all of which are in E
+		if !inModule(fn.Pkg()) && !f.heavyNames[fn.Name()] {
+			w = f.wLight // method of a library interface: a library type, or a light module method of that name
+			fc.assumptions[f.lightAssumption()] = true
+		} else {
+			w = f.wE // module interface / heavy method: any implementation, all of which are in E
+		}
 	case !inModule(fn.Pkg()):
-		w = f.wE // external: may call back into E
+		if isLeafExternal(fn) {
+			w = f.wLight
+			fc.assumptions[f.lightAssumption()] = true
+		} else {
+			w = f.wE // external code that runs callbacks / handlers: may call back into E
+		}
 	default:
 		n := f.nodes[fn.Origin()]
 		if n == nil {
